@@ -209,6 +209,16 @@ def r6(rr, repo):
                 rr.ob('at the end: (name of the last file, its recorded size)', t == '(os.path.basename(self.logfiles[-1].path), self.logfiles[-1].size)', mod, fn, witness=t[:140], key='tell-end')
             else:
                 rr.ob("no files at all: ('start', 0)", t.replace('"', "'") == "('start', 0)", mod, fn, witness=t, key='tell-empty')
+        elif rel is None and p.facts.get('truthy(len(self.logfiles))') is not False and 'self.logfiles[' in t:
+            # a position is computed from the list without ever asking whether the reader is inside it or past its end: the two states need different
+            # answers (offset of the file being read vs. size of the last file - "everything so far was read"), no single expression serves both
+            n += 1
+            has_try = any(isinstance(x, ast.Try) for x in ast.walk(fn))
+            if has_try:
+                rr.unresolved('tell() reports a position from the file list without comparing the reader index with its length (an exception handler may cover it)', mod, fn, witness=t[:140], key='tell-untested')
+            else:
+                rr.violated('tell() does not distinguish a reader past the end of the list from one inside it: past the end nothing is open, so the reported offset is 0 (or an index error) instead of the size of the last file, '
+                            'and seek(tell()) / a restart from the saved head delivers the last file again', mod, fn, witness=t[:160], key='tell-untested')
     rr.floor('returning paths of tell()', n, 3, mod, fn)
 
 
